@@ -606,9 +606,24 @@ type panicScope struct {
 	roots []string // function names
 	// extra: include all functions of these packages (short names)
 	pkgs []string
+	// fixed: the scope is part of the rule (not widened by the thorough tier)
+	fixed bool
 }
 
 func (r *Run) scopeFuncs(sc panicScope) map[*ssa.Function]bool {
+	if r.Tier == "thorough" && !sc.fixed {
+		// thorough: the same rule over every function of the module
+		set := map[*ssa.Function]bool{}
+		for _, fn := range r.P.Funcs {
+			if fn.Synthetic == "" {
+				set[fn] = true
+			}
+		}
+		for _, n := range sc.roots {
+			r.Anchor("R7", n)
+		}
+		return set
+	}
 	var roots []*ssa.Function
 	for _, n := range sc.roots {
 		if fn := r.Anchor("R7", n); fn != nil {
